@@ -179,6 +179,12 @@ Sine ==
     /\ Check("C06:enbw_is_fs_S2_over_S12", Near(e.enbwq, e.enbwx, 4))
 
 (* single-bin analyses: n is the number of segments actually averaged *)
+(* single-bin requests next to DC / Nyquist with the channels in both orders *)
+Swap1 ==
+    LET e == Ev IN
+    /\ Check("C09:swap_conjugates_cross_spectrum", Near(e.g[1], e.gs[1], 4) /\ Near(e.g[2], -e.gs[2], 4))
+    /\ Check("C09:swap_keeps_coherence", Near(e.coh, e.cohs, 4))
+    /\ Check("C09:swap_exchanges_auto_spectra", Near(e.gxx, e.gyys, 2))
 (* segments that are bit-identical (a tiled record, no overlap): the scatter is exactly zero *)
 Identical ==
     LET e == Ev IN
@@ -235,6 +241,7 @@ Step ==
          [] Ev.t = "single" -> Single
          [] Ev.t = "errs" -> Errs
          [] Ev.t = "identical" -> Identical
+         [] Ev.t = "swap1" -> Swap1
          [] Ev.t = "delayline" -> DelayLine
          [] Ev.t = "broken" -> Check("ANY:estimates_of_one_bin_are_mutually_consistent", FALSE)   \* the recorder could not normalise them (0 density next to positive power, ...)
          [] Ev.t = "shape" -> Check("ANY:variant_analysis_has_the_same_bins", Ev.nf = Ev.ref)   \* swapped / rescaled / relabelled records: same plan
